@@ -129,7 +129,9 @@ Definition gen_one (u : counts) (l : lut) (op : ir) : string * lut :=
   | IBlob t fs => iis u l t ("__BLOB{ " ++ join ", " (map (fun fv => lua_key (fst fv) ++ " = " ++ expand l (snd fv)) fs) ++ " }")
   | ITuple t xs => iis u l t ("__TUPLE{ " ++ comma_sep l xs ++ " }")
   | IVariant t v a => iis u l t ("__VARIANT{ """ ++ v ++ """, " ++ expand l a ++ " }")
-  | IIndex t a i => bin t "__INDEX(" ", " ")" a i
+  (* reads of mutable data are never inlined at their use *)
+  | IIndex t a i =>
+      if 0 <? count_of u t then ("local " ++ fmt_var t ++ " = __INDEX(" ++ expand l a ++ ", " ++ expand l i ++ ")", l) else ("", l)
   | IFunction f params =>
       ("local function " ++ expand l f ++ "(" ++ join ", " (map fmt_var params) ++ ")", l)
   | IExternal t e => (expand l t ++ " = " ++ e, l)
@@ -143,7 +145,8 @@ Definition gen_one (u : counts) (l : lut) (op : ir) : string * lut :=
   | IBreak => ("break", l)
   | IReturn t => ("do return " ++ expand l t ++ " end", l)
   | IHalt msg => ("__CRASH(""" ++ msg ++ """)()", l)
-  | IAccess t a f => iis u l t (expand l a ++ lua_field f)
+  | IAccess t a f =>
+      if 0 <? count_of u t then ("local " ++ fmt_var t ++ " = " ++ expand l a ++ lua_field f, l) else ("", l)
   | ICopy t a => if 0 <? count_of u t then ("local " ++ expand l t ++ " = " ++ expand l a, l) else ("", l)
   | IAssign t a => if 0 <? count_of u t then (expand l t ++ " = " ++ expand l a, l) else ("", l)
   | IAssignIndex t i a =>
